@@ -999,6 +999,23 @@ func (env *localEnv) sliceElems(e ast.Expr) ([]string, bool) {
 				return nil, false // conditional construction of operands is not understood
 			}
 		}
+		if rng != nil {
+			// an iteration that can be left early (continue / break / return / goto) contributes its
+			// operands only conditionally (seed C14-9: blank tag values skipped) — not understood either
+			leaves := false
+			ast.Inspect(rng.Body, func(n ast.Node) bool {
+				switch n.(type) {
+				case *ast.BranchStmt, *ast.ReturnStmt:
+					leaves = true
+				case *ast.FuncLit:
+					return false
+				}
+				return true
+			})
+			if leaves {
+				return nil, false
+			}
+		}
 		switch x := rhs.(type) {
 		case *ast.CompositeLit:
 			if rng != nil {
